@@ -126,11 +126,39 @@ namespace
                             JObj().raw("operators", ops_json(ops)).d("slope_exp", n2).s("detail", threw ? "set_slope_exp threw" : "set_slope_exp did not throw").str());
             if (want_throw)
                 R.count("c12.rejections_expected");
+            // a rejected request must stay rejected when it is repeated (every request is validated)
+            if (want_throw && threw)
+            {
+                bool threw2 = false;
+                try
+                {
+                    probe2.set_slope_exp(n2);
+                }
+                catch (const std::exception&)
+                {
+                    threw2 = true;
+                }
+                if (!threw2)
+                    R.violation("C12", "nonlinear_exponent_accepted_on_multi_flow_graph/repeated_request",
+                                JObj().raw("operators", ops_json(ops)).d("slope_exp", n2).s("detail", "the same rejected set_slope_exp request was accepted when repeated").str());
+                // and asking for the linear case afterwards must work again
+                try
+                {
+                    probe2.set_slope_exp(1.0);
+                }
+                catch (const std::exception&)
+                {
+                    R.violation("C12", "exponent_rejected", JObj().raw("operators", ops_json(ops)).d("slope_exp", 1.0).s("detail", "n = 1 rejected after a rejected request").str());
+                }
+                R.count("c12.repeated_rejections_checked");
+            }
         }
 
         // eroder parameters
         double m_exp = rng.pick(std::vector<double>{ 0.3, 0.5, 1.0 });
-        double n_exp = multi ? 1.0 : rng.pick(std::vector<double>{ 0.5, 0.8, 1.0, 1.0, 1.5, 2.0, 3.0, 4.0, 6.0 });
+        // exponents below / at / above one, including values closer to one than the Newton tolerance
+        const std::vector<double> n_values{ 0.5, 0.8, 1.0, 1.0, 1.5, 2.0, 3.0, 4.0, 6.0, 0.9995, 1.0005, 0.99, 1.01, 0.99999, 1.00001 };
+        double n_exp = multi ? 1.0 : rng.pick(n_values);
         double tol = rng.pick(std::vector<double>{ 1e-6, 1e-3, 1e-1 });
         bool k_array = rng.chance(0.5);
         auto gen_k = [&](std::vector<double>& kv)
@@ -230,7 +258,7 @@ namespace
                 {
                     do
                     {
-                        n_exp = rng.pick(std::vector<double>{ 0.5, 0.8, 1.0, 1.5, 2.0, 3.0, 4.0, 6.0 });
+                        n_exp = rng.pick(n_values);
                     } while (n_exp != 1.0 && in.field_cls == std::string("large"));
                     eroder->set_slope_exp(n_exp);
                     R.count("spl.param_change.slope_exp");
@@ -280,6 +308,8 @@ namespace
             R.count(std::string("spl.elevation.") + (use_filled ? "filled" : "unfilled"));
             std::string nclass = n_exp < 1 ? "below_one" : (n_exp == 1 ? "one" : "above_one");
             R.count("spl.slope_exp." + nclass);
+            if (n_exp != 1.0 && std::fabs(n_exp - 1.0) <= 0.01)
+                R.count("spl.slope_exp.near_one");
 
             auto witness = [&](const std::string& detail)
             {
@@ -402,21 +432,37 @@ namespace
                         long double F = static_cast<long double>(dt) * static_cast<long double>(kv[i])
                                         * powl(static_cast<long double>(area[i]) * static_cast<long double>(S.rw(i, k)), static_cast<long double>(m_exp));
                         long double L = S.rd(i, k);
-                        if (drop < 0)
+                        long double term;
+                        if (n_exp == 1.0)
                         {
-                            // rounding put the node marginally below its receiver: slope is zero
-                            drop = 0;
+                            // linear case: the term is linear in the (signed) drop; on multiple-direction graphs a
+                            // node may end below one of its (weakly weighted) lower receivers
+                            term = F * drop / L;
+                            if (drop < 0)
+                                drop = 0;
                         }
-                        long double term = F * powl(drop / L, static_cast<long double>(n_exp));
+                        else
+                        {
+                            if (drop < 0)
+                                drop = 0;  // rounding put the node marginally below its receiver: slope is zero
+                            term = F * powl(drop / L, static_cast<long double>(n_exp));
+                        }
                         if (!std::isfinite(static_cast<double>(term)))
                             defined = false;
                         res += term;
                         scale += std::fabs(term);
-                        // sensitivity of the term to rounding of the stored elevations
-                        if (drop > 0)
-                            cond += static_cast<long double>(n_exp) * term / drop;
-                        else if (n_exp <= 1.0)
-                            defined = false;  // infinite sensitivity at zero drop
+                        // sensitivity of the term to the rounding u of the stored elevations: sup of
+                        // d/d(drop) [F (drop/L)^n] over [drop - u, drop + u]
+                        {
+                            long double u = rtol;
+                            long double nn = static_cast<long double>(n_exp);
+                            if (n_exp >= 1.0)
+                                cond += nn * F / powl(L, nn) * powl(drop + u, nn - 1.0L);
+                            else if (drop > 2 * u)
+                                cond += nn * F / powl(L, nn) * powl(drop - u, nn - 1.0L);
+                            else
+                                defined = false;  // unbounded sensitivity next to zero drop
+                        }
                     }
                     if (defined)
                     {
